@@ -87,10 +87,13 @@ def _operators(prog, rep):
                     else:
                         order_ok = (ra, rb) == ("self", "other")
                     ok = lit_ok and order_ok
+                    if not ok and (ra is None or rb is None or ra == rb):
+                        rep.undecided(f"{cname}.{mname}: which operand of `{src(c)[:50]}` is self and which is the other one is not readable")
+                        continue
                     rep.ob("R11.1", f"{cname}.{mname}", ok,
                            f"builds ({ra} {l} {rb})" if ok else
                            (f"builds operator {l!r} instead of {lit!r}" if not lit_ok else f"operands are ({ra}, {rb}): " + ("a reflected non-commutative operator must put `other` on the left (3 - x is not x - 3)" if refl else "a forward operator must put self on the left")),
-                           loc=f"{m.module.rel}:{c.lineno}", detail=f"order+literal:{src(c)[:40]}")
+                           loc=f"{m.module.rel}:{c.lineno}", detail=f"order+literal:{src(c)[:40]}", robust=True)
         neg = ci.methods.get("__neg__")
         if neg is not None:
             s = src(neg.node)
@@ -140,6 +143,45 @@ def _raises_size_error(stmts):
     return False
 
 
+def _one_sided_size_test(stmts):
+    """An `if a < b: raise <size error>` (or >, <=, >=) with no `!=` test next to it: the size check exists but lets the
+    other inequality through.  -> the If node or None"""
+    found, has_ne = None, False
+    for st in stmts:
+        for n in ast.walk(st):
+            if isinstance(n, ast.If) and _raises_size_error(n.body):
+                for c in ast.walk(n.test):
+                    if isinstance(c, ast.Compare) and len(c.ops) == 1:
+                        if isinstance(c.ops[0], (ast.NotEq, ast.Eq)):
+                            has_ne = True
+                        elif isinstance(c.ops[0], (ast.Lt, ast.Gt, ast.LtE, ast.GtE)) and not any(isinstance(x, ast.Constant) for x in (c.left, c.comparators[0])):
+                            found = found or n
+    return None if has_ne else found
+
+
+def _may_validate(prog, fi, stmts) -> bool:
+    """Some call in ``stmts`` goes to a function of the package that could do the size check (it raises somewhere, or is
+    not resolvable): plain constructors / NumPy / builtins do not count."""
+    harmless = {"len", "zip", "range", "list", "tuple", "enumerate", "isinstance", "float", "int", "getattr", "hasattr", "super", "_ensure_expr", "sum", "min", "max", "any", "all", "str", "repr", "type", "iter", "next", "map"}
+    for st in stmts:
+        for c in ast.walk(st):
+            if not isinstance(c, ast.Call):
+                continue
+            d = dotted(c.func) or ""
+            if d.startswith(("np.", "numpy.", "math.")) or d in harmless or d.split(".")[-1] in harmless:
+                continue
+            if d in prog.classes:
+                continue        # constructing a node: its own constructor is checked on its own
+            if isinstance(c.func, ast.Attribute) and c.func.attr in ("append", "extend", "items", "keys", "values", "get", "copy", "astype", "tolist", "flatten", "ravel", "reshape", "format", "join"):
+                continue
+            cands = [f for f in prog.functions.values() if f.name == d.split(".")[-1]]
+            if not cands:
+                return True
+            if any(any(isinstance(x, ast.Raise) for x in ast.walk(f.node)) for f in cands):
+                return True
+    return False
+
+
 def _truncation(prog, rep):
     _PROG["prog"] = prog
     # (a) operand-kind ladders of the four pairing helpers: each arm that takes elements from a sized operand is
@@ -179,20 +221,39 @@ def _truncation(prog, rep):
             guarded = any(_raises_size_error(st.body) and any(k in src(st.test) for k in ("len(", ".size", ".shape", ".ndim")) and "!=" in src(st.test) for st in first_if)
             # the size test must compare with the left operand's size
             compares_left = any(("left" in src(st.test) or "rows, cols" in src(st.test) or "(rows, cols)" in src(st.test)) for st in first_if if "!=" in src(st.test) and ".ndim" not in src(st.test))
+            one = _one_sided_size_test(body) if not (guarded and compares_left) else None
+            if one is not None:
+                rep.ob("R11.2", f"{fi.name}[{kinds[18:-1]}]", False, f"the size check is `{src(one.test)[:50]}`: operands whose sizes differ the other way are paired element by element (silent truncation)", loc=f"{fi.module.rel}:{one.lineno}", detail="arm", robust=True)
+                continue
+            if not (guarded and compares_left):
+                # positive only when the arm raises no size error at all and hands the check to nobody
+                if any(_raises_size_error([st]) for st in body) or _may_validate(prog, fi, body):
+                    rep.undecided(f"{fi.name}[{kinds[18:-1]}]: a size error is raised / a helper is called in this arm, but not in the `if <sizes differ>: raise` form this rule reads")
+                    continue
             rep.ob("R11.2", f"{fi.name}[{kinds[18:-1]}]", guarded and compares_left,
                    "operand sizes are compared and a mismatch raises before elements are paired" if guarded and compares_left else
                    "elements of this operand kind are paired with the left operand without a raising size check: zip()/indexing silently truncates or mis-aligns",
-                   loc=f"{fi.module.rel}:{node.lineno}", detail="arm")
+                   loc=f"{fi.module.rel}:{node.lineno}", detail="arm", robust=True)
         ok = bool(els) and terminal(els) == "raise"
         rep.ob("R11.2", f"{fi.name}[default]", ok, "unknown operand kinds are rejected with an error" if ok else "the operand-kind ladder has no raising default", loc=fi.loc, detail="default-raises")
     # (b) constructors that tie sizes
     for cname, what in (("DotProduct", "left_size != right_size"), ("LinearCombination", "len(coefficients) != vec_size"), ("MatrixVectorProduct", "matrix.shape[1] != vec_size"), ("QuadraticForm", "matrix.shape[0] != vec_size")):
         init = prog.cls(cname).methods["__init__"]
         ok = any(isinstance(n, ast.If) and src(n.test) == what and _raises_size_error(n.body) for n in walk_local(init.node))
-        rep.ob("R11.2", f"{cname}.__init__", ok, f"`{what}` raises" if ok else f"{cname} can be constructed with operands of different sizes (no raising `{what}` check)", loc=init.loc, detail="constructor-size-check")
+        one = _one_sided_size_test(init.node.body) if not ok else None
+        if one is not None:
+            rep.ob("R11.2", f"{cname}.__init__", False, f"the size check is `{src(one.test)[:50]}`: operands whose sizes differ the other way are accepted and then zipped / indexed (silent truncation)", loc=f"{init.module.rel}:{one.lineno}", detail="constructor-size-check", robust=True)
+            continue
+        if not ok and (_raises_size_error(init.node.body) or _may_validate(prog, init, init.node.body)):
+            rep.undecided(f"{cname}.__init__: a size error is raised / a helper is called, but not as `if {what}: raise`")
+            continue
+        rep.ob("R11.2", f"{cname}.__init__", ok, f"`{what}` raises" if ok else f"{cname} can be constructed with operands of different sizes (nothing in the constructor raises a size error)", loc=init.loc, detail="constructor-size-check", robust=True)
     mv = prog.cls("MatrixVariable").methods["_matmul_vector"]
     ok = any(isinstance(n, ast.If) and src(n.test) == "self.cols != vec_size" and _raises_size_error(n.body) for n in walk_local(mv.node))
-    rep.ob("R11.2", "MatrixVariable._matmul_vector", ok, "cols != vector size raises" if ok else "matrix @ vector pairs columns with vector elements without a size check", loc=mv.loc, detail="constructor-size-check")
+    if not ok and (_raises_size_error(mv.node.body) or _may_validate(prog, mv, mv.node.body)):
+        rep.undecided("MatrixVariable._matmul_vector: a size error is raised / a helper is called, but not as `if self.cols != vec_size: raise`")
+    else:
+        rep.ob("R11.2", "MatrixVariable._matmul_vector", ok, "cols != vector size raises" if ok else "matrix @ vector pairs columns with vector elements and nothing raises a size error", loc=mv.loc, detail="constructor-size-check", robust=True)
     # (c) every zip over two element lists in core sits in a function with a size guard or consumes a size-tied node
     tied = {"gradient_dot_product": "DotProduct", "_is_scaled_variable_pattern": "len-check"}
     for fi in prog.functions.values():
@@ -216,6 +277,65 @@ def _nested_comp(node):
     return None
 
 
+def _transpose_map(rep, construct, grid, store, rows, cols, fn):
+    """view[o][i] = <store>[i][o] with o over range(cols) and i over range(rows): read off the nested comprehension.
+    A recognised comprehension over the same store with the indices not swapped, or with the ranges exchanged, is
+    positively wrong; anything else is not read."""
+    nc = _nested_comp(grid) if grid is not None else None
+    if nc is None:
+        rep.undecided(f"{construct}: the transposed grid is not built by a nested comprehension this rule reads")
+        return
+    o, ro, i, ri, elt = nc
+    e = elt
+    if not (isinstance(e, ast.Subscript) and isinstance(e.value, ast.Subscript) and src(e.value.value) == store):
+        rep.undecided(f"{construct}: element `{src(elt)[:40]}` is not `{store}[..][..]`")
+        return
+    p, q = src(e.value.slice), src(e.slice)
+    if {p, q} != {o, i} or {ro, ri} != {f"range({rows})", f"range({cols})"}:
+        rep.undecided(f"{construct}: `{src(grid)[:70]}` uses indices / ranges this rule does not relate to the loop variables")
+        return
+    ok = (p, q) == (i, o) and ro == f"range({cols})" and ri == f"range({rows})"
+    rep.ob("R11.3", construct, ok, f"view[{o}][{i}] = original[{i}][{o}], {o} over the original columns, {i} over the original rows" if ok else
+           (f"the grid is `{src(grid)[:80]}`: entry [{o}][{i}] of the view is original[{p}][{q}]" + (" -- not transposed" if (p, q) == (o, i) else "") + (f", with {o} ranging over {ro} and {i} over {ri}" if not (ro == f"range({cols})" and ri == f"range({rows})") else "") + "; NumPy's A.T[i][j] is A[j][i] with i over the columns of A"),
+           loc=fn.loc, detail="index-map", robust=True)
+
+
+def _matvec_rows(rep, mvp):
+    """element k of A @ x is LinearCombination(A[k, :], x), k over range(A.shape[0])"""
+    asg = {src(n.targets[0]): n.value for n in walk_local(mvp.node) if isinstance(n, ast.Assign) and len(n.targets) == 1}
+    params = [a.arg for a in mvp.node.args.args]
+    mat, vec = (params + ["matrix", "vector"])[1:3]
+    found = False
+    for c in ast.walk(mvp.node):
+        if not (isinstance(c, (ast.ListComp, ast.GeneratorExp)) and len(c.generators) == 1 and isinstance(c.elt, ast.Call) and dotted(c.elt.func) == "LinearCombination" and len(c.elt.args) == 2):
+            continue
+        found = True
+        g = c.generators[0]
+        k = src(g.target)
+        rng = g.iter
+        bound = src(rng.args[0]) if isinstance(rng, ast.Call) and dotted(rng.func) == "range" and len(rng.args) == 1 else None
+        if bound in asg:
+            bound = src(asg[bound])
+        row, v = c.elt.args
+        if bound is None or not (isinstance(row, ast.Subscript) and src(row.value) == mat) or src(v) not in (vec, f"self.{vec}"):
+            rep.undecided(f"MatrixVectorProduct.__init__: `{src(c)[:70]}` is not LinearCombination({mat}[k, :], {vec}) over range(..)")
+            continue
+        sl = row.slice
+        first = sl.elts[0] if isinstance(sl, ast.Tuple) and len(sl.elts) == 2 else sl
+        second = sl.elts[1] if isinstance(sl, ast.Tuple) and len(sl.elts) == 2 else None
+        is_row = src(first) == k and (second is None or (isinstance(second, ast.Slice) and second.lower is None and second.upper is None and second.step is None))
+        is_col = second is not None and src(second) == k and isinstance(first, ast.Slice)
+        if not (is_row or is_col) or bound not in (f"{mat}.shape[0]", f"{mat}.shape[1]", f"len({mat})"):
+            rep.undecided(f"MatrixVectorProduct.__init__: `{src(c)[:70]}`: index / range not related to the loop variable by this rule")
+            continue
+        ok = is_row and bound in (f"{mat}.shape[0]", f"len({mat})")
+        rep.ob("R11.3", "MatrixVectorProduct.__init__", ok, f"element {k} is row {k} of the matrix dotted with the vector, {k} over the rows" if ok else
+               f"element {k} of A @ x is built from `{src(row)}` for {k} in range({bound}): " + ("a COLUMN of A, not row k" if is_col else "the loop does not range over the rows of A"),
+               loc=f"{mvp.module.rel}:{c.lineno}", detail="row-i", robust=True)
+    if not found:
+        rep.undecided("MatrixVectorProduct.__init__: no comprehension of LinearCombination(..) rows found")
+
+
 def _index_maps(prog, rep):
     MV = prog.cls("MatrixVariable")
     tv = MV.methods.get("_transpose_view")
@@ -225,16 +345,19 @@ def _index_maps(prog, rep):
     a = {src(n.targets[0]): n.value for n in walk_local(tv.node) if isinstance(n, ast.Assign)}
     ok = src(a.get("instance.rows")) == f"{orig}.cols" and src(a.get("instance.cols")) == f"{orig}.rows"
     rep.pin('index maps of views', "R11.3", "MatrixVariable._transpose_view", ok, "rows/cols are swapped" if ok else "the transpose view does not swap rows and cols", loc=tv.loc, detail="shape")
-    nc = _nested_comp(a.get("instance._variables"))
-    ok = nc is not None and nc[1] == f"range({orig}.cols)" and nc[3] == f"range({orig}.rows)" and src(nc[4]) == f"{orig}._variables[{nc[2]}][{nc[0]}]"
-    rep.pin('index maps of views', "R11.3", "MatrixVariable._transpose_view", ok, "view[i][j] = original[j][i], i over original cols, j over original rows" if ok else f"the transposed variable grid is `{src(a.get('instance._variables'))[:80]}`, not [[orig[j][i] for j in range(orig.rows)] for i in range(orig.cols)]", loc=tv.loc, detail="index-map")
+    _transpose_map(rep, "MatrixVariable._transpose_view", a.get("instance._variables"), f"{orig}._variables", f"{orig}.rows", f"{orig}.cols", tv)
     ME = prog.cls("MatrixExpression").methods.get("T")
     nc = None
     for n in walk_local(ME.node):
         if isinstance(n, ast.Assign):
             nc = _nested_comp(n.value) or nc
-    ok = nc is not None and nc[1] == "range(self.cols)" and nc[3] == "range(self.rows)" and src(nc[4]) == f"self._expressions[{nc[2]}][{nc[0]}]"
-    rep.pin('index maps of views', "R11.3", "MatrixExpression.T", ok, "T[i][j] = self[j][i]" if ok else "MatrixExpression.T does not build [[self[j][i] for j in rows] for i in cols]", loc=ME.loc, detail="index-map")
+    grid = None
+    for n in walk_local(ME.node):
+        if isinstance(n, (ast.Assign, ast.Return)) and getattr(n, "value", None) is not None:
+            for x in ast.walk(n.value):
+                if _nested_comp(x) is not None:
+                    grid = x
+    _transpose_map(rep, "MatrixExpression.T", grid, "self._expressions", "self.rows", "self.cols", ME)
     init = MV.methods["__init__"]
     s = src(init.node)
     # structural: under the `symmetric` guard the element is taken from the already built grid with swapped indices
@@ -307,8 +430,7 @@ def _index_maps(prog, rep):
     rep.pin('index maps of views', "R11.3", "MatrixVariable.__getitem__", ok, "A[i, j] / A[i, :] / A[:, j] / A[a:b, c:d] index rows first, then columns" if ok else "matrix indexing does not index rows first and columns second for all four cases", loc=gi.loc, detail="row/column")
     mvp = prog.cls("MatrixVectorProduct").methods["__init__"]
     t = src(mvp.node)
-    ok = Frag(t, "LinearCombination(matrix[i, :], vector) for i in range(self.size)", "self.size = matrix.shape[0]")
-    rep.pin('index maps of views', "R11.3", "MatrixVectorProduct.__init__", ok, "element i is row i of the matrix dotted with the vector" if ok else "element i of A @ x is not LinearCombination(A[i, :], x)", loc=mvp.loc, detail="row-i")
+    _matvec_rows(rep, mvp)
     mm = MV.methods["_matmul_vector"]
     t = src(mm.node)
     ok = Frag(t, "BinaryOp(self._variables[i][j], vec_elem, '*')", "for i in range(self.rows):", "for j in range(self.cols):", "vector[j]", "BinaryOp(row_expr, term, '+')")
